@@ -8,6 +8,9 @@
 * `mx`: as `mk`, but only ONE of the two video tracks lists the second key id
   (the adaptation set's key set is larger than one track's) – used for the ledger
   witness of the manifest/init mismatch only;
+* `va`: video tracks with the fixture KID, audio track = a copy of bbb_a1_enc whose tenc
+  default_KID (the only place the key id occurs in the file) is rewritten to KID_C – the
+  video and the audio adaptation set of one period use DIFFERENT single key ids;
 * extra rows in the `key` table (computed and non-computed keys) for the ClearKey
   licence checks;
 * a multi-period stream `c10mps` (period 1 = bbb, period 2 = tears, period 3 = mk).
@@ -30,6 +33,7 @@ import appboot
 
 KID_A = bytes.fromhex("1ab45440532c439994dc5c5ad9584bac")    # the fixture key id
 KID_B = bytes.fromhex("c001de8e567b5fcfbc22c565ed5bda24")
+KID_C = bytes.fromhex("a0d1c2e3f4054617b8291a0b1c2d3e4f")    # key id of the audio track of stream `va`
 MPS_NAME = "c10mps"
 
 # extra licence-server keys: (kid, key or None for a computed key)
@@ -52,6 +56,7 @@ class Env:
                                          "a1_enc": [KID_A, KID_B]})
         self._add_multikey_stream("mx", {"v6_enc": [KID_A], "v7_enc": [KID_A, KID_B],
                                          "a1_enc": [KID_A]})
+        self._add_split_key_stream()
         self._add_extra_keys()
         self.mps_periods = self._add_mps()
 
@@ -68,6 +73,28 @@ class Env:
             (self.tmp / f"rep-{stem}.json").write_text(json.dumps(js))
             files.append((stem, src_dir / f"bbb_{suffix}.mp4"))
         self.app.add_stream(directory, f"multi key {directory}", files, real_index=False,
+                            rep_cache=lambda s: self.tmp / f"rep-{s}.json")
+
+    def _add_split_key_stream(self):
+        """stream `va`: video adaptation set with KID_A, audio adaptation set with KID_C"""
+        src_dir = appboot.FIXTURES / "bbb"
+        files = []
+        for suffix, kid in (("v6_enc", KID_A), ("v7_enc", KID_A), ("a1_enc", KID_C)):
+            stem = f"va_{suffix}"
+            js = json.loads((src_dir / f"rep-bbb_{suffix}.json").read_text())
+            js["id"] = stem
+            js["filename"] = f"{stem}.mp4"
+            js["kids"] = [kid.hex()]
+            js["default_kid"] = kid.hex()
+            (self.tmp / f"rep-{stem}.json").write_text(json.dumps(js))
+            src = src_dir / f"bbb_{suffix}.mp4"
+            if kid != KID_A:
+                data = src.read_bytes()
+                assert data.count(KID_A) == 1, "the fixture key id is expected once (tenc default_KID)"
+                src = self.tmp / f"{stem}.mp4"
+                src.write_bytes(data.replace(KID_A, kid))
+            files.append((stem, src))
+        self.app.add_stream("va", "video and audio keys differ", files, real_index=False,
                             rep_cache=lambda s: self.tmp / f"rep-{s}.json")
 
     def _add_extra_keys(self):
